@@ -377,6 +377,43 @@ def cmd_inram_update_metadata(p):
          'bad_id_exception': type(exc2).__name__ if exc2 is not None else None, 'bad_id_reproduced': exc2 is not None and after2 != after})
 
 
+def cmd_sql_effect(p):
+    """bounded stand-in for the SQL path of UpdateMetadata: D' = D (+) delta stated PER NAMED TRIAL (every order of naming the
+    trials of a 3-trial study, 1..3 trials named, repeated ids), through the real servicer on sqlite:///:memory:."""
+    import itertools
+    from vizier._src.service import study_pb2, vizier_service_pb2
+    failures, n = [], 0
+    orders = [list(o) for k in (1, 2, 3) for o in itertools.permutations(['1', '2', '3'], k)] + [['3', '1', '3'], ['2', '2', '1']]
+    for order in orders:
+        svc = env.new_servicer('sqlite:///:memory:')
+        spec = study_pb2.StudySpec(algorithm='RANDOM_SEARCH')
+        spec.parameters.add(parameter_id='x', double_value_spec=study_pb2.StudySpec.ParameterSpec.DoubleValueSpec(min_value=0, max_value=1))
+        spec.metrics.add(metric_id='m', goal=study_pb2.StudySpec.MetricSpec.MAXIMIZE)
+        st = svc.CreateStudy(vizier_service_pb2.CreateStudyRequest(parent='owners/o', study=study_pb2.Study(display_name='s', study_spec=spec)))
+        for _ in range(3):
+            svc.CreateTrial(vizier_service_pb2.CreateTrialRequest(parent=st.name, trial=study_pb2.Trial()))
+        svc.UpdateMetadata(_req(st.name, [['2', '', 'old', 'o2'], [None, '', 'user', 'u']]))
+        delta = [[tid, 'ns', 'k', 'v%s_%d' % (tid, i)] for i, tid in enumerate(order)] + [[None, 'alg', 's', 'sv']]
+        before = _md(svc, st.name)
+        resp = svc.UpdateMetadata(_req(st.name, delta))
+        after = _md(svc, st.name)
+        exp_study = {(a, b): c for a, b, c in before[0]}
+        exp_trials = {tid: {(a, b): c for a, b, c in l} for tid, l in before[1].items()}
+        for tid, ns, key, value in delta:
+            (exp_study if tid is None else exp_trials[tid])[(ns, key)] = value
+        flat = lambda d: [[a, b, c] for (a, b), c in sorted(d.items())]
+        n += 1
+        if resp.error_details != '' or after[0] != flat(exp_study) or any(after[1][t] != flat(exp_trials[t]) for t in exp_trials):
+            failures.append({'named_trials_in_order': order, 'error_details': resp.error_details,
+                             'trial_metadata_after': after[1], 'expected': {t: flat(exp_trials[t]) for t in exp_trials}})
+        # a missing trial: error reported, nothing stored
+        b2 = _snapshot(svc, st.name)
+        r2 = svc.UpdateMetadata(_req(st.name, [['1', 'ns', 'z', 'z'], ['99', 'ns', 'z', 'z'], [None, '', 'late', 'l']]))
+        if r2.error_details == '' or _snapshot(svc, st.name) != b2:
+            failures.append({'missing_trial_after': order, 'error_details': r2.error_details, 'changed': _snapshot(svc, st.name) != b2})
+    out({'scenarios': n, 'failures': failures[:4], 'reproduced': bool(failures)})
+
+
 def main():
     cmd = sys.argv[1]
     payload = {}
